@@ -174,6 +174,15 @@ static void h_write_file (MIR_context_t ctx, h_buf_t *out) {
   for (size_t i = 0; i < ms; i++) h_buf_push (out, (uint8_t) mp[i]);
   free (mp);
 }
+static void h_write_one (MIR_context_t ctx, MIR_module_t m, h_buf_t *out) {
+  char *mp = NULL;
+  size_t ms = 0;
+  FILE *f = open_memstream (&mp, &ms);
+  MIR_write_module (ctx, f, m);
+  fclose (f);
+  for (size_t i = 0; i < ms; i++) h_buf_push (out, (uint8_t) mp[i]);
+  free (mp);
+}
 static void h_write_cb (MIR_context_t ctx, h_buf_t *out) {
   h_cb_out = out;
   MIR_write_with_func (ctx, h_cb_writer);
@@ -912,9 +921,46 @@ static void h_roundtrip (MIR_context_t a, int exec_p, int load_p, h_call_t *call
     printf ("writeerr %s\n", h_errmsg);
     goto fin;
   }
-  h_write_file (a, &w1);
-  h_write_file (a, &w2);
-  h_write_cb (a, &w3);
+  /* history of writes in one context: the first module alone, everything (three times), then
+     every module alone in reverse order; the image of a module must not depend on what was
+     written before it */
+#define H_MAXMOD 6
+  {
+    MIR_module_t mods[H_MAXMOD];
+    h_buf_t pre0 = {0}, single[H_MAXMOD];
+    size_t nm = 0, total = 0;
+    for (MIR_module_t m = DLIST_HEAD (MIR_module_t, *MIR_get_module_list (a)); m != NULL;
+         m = DLIST_NEXT (MIR_module_t, m)) {
+      if (total < H_MAXMOD) mods[total] = m;
+      total++;
+    }
+    nm = total;
+    if (nm >= 2 && nm <= H_MAXMOD) h_write_one (a, mods[0], &pre0);
+    h_write_file (a, &w1);
+    h_write_file (a, &w2);
+    h_write_cb (a, &w3);
+    if (nm >= 2 && nm <= H_MAXMOD) {
+      int same = 1;
+      for (size_t i = nm; i-- > 0;) {
+        memset (&single[i], 0, sizeof (h_buf_t));
+        h_write_one (a, mods[i], &single[i]);
+      }
+      if (!h_buf_eq (&pre0, &single[0])) same = 0;
+      printf ("wmod %s\n", same ? "same" : "diff module 0 written first vs. written after the others");
+      for (size_t i = 0; i < nm; i++) {
+        h_buf_t r = {0};
+        char tag[32];
+        h_decompress (MIR_get_alloc (a), &single[i], &r);
+        if (r.n <= 400000) {
+          snprintf (tag, sizeof (tag), "MRAW%lu", (unsigned long) i);
+          h_print_hex (tag, r.p, r.n);
+        }
+        h_buf_free (&r);
+        h_buf_free (&single[i]);
+      }
+      h_buf_free (&pre0);
+    }
+  }
   h_jmp_set = 0;
   printf ("wlen %lu\n", (unsigned long) w1.n);
   printf ("w2 %s\n", h_buf_eq (&w1, &w2) ? "same" : "diff");
@@ -948,6 +994,20 @@ static void h_roundtrip (MIR_context_t a, int exec_p, int load_p, h_call_t *call
       printf ("text diff\n");
       h_print_block ("T1", t1, t1n);
       h_print_block ("T2", t2, t2n);
+    }
+    {
+      /* write after read: the re-read context must produce the same image */
+      h_buf_t wb = {0};
+      h_jmp_set = 1;
+      if (setjmp (h_jmp)) {
+        h_jmp_set = 0;
+        printf ("wafter err %s\n", h_errmsg);
+      } else {
+        h_write_file (b, &wb);
+        h_jmp_set = 0;
+        printf ("wafter %s\n", h_buf_eq (&w1, &wb) ? "same" : "diff");
+      }
+      h_buf_free (&wb);
     }
     h_dump_to (b, &c2, &c2n, h_dump_counters);
     h_print_block ("C2", c2, c2n);
